@@ -738,7 +738,9 @@ func (r *svRig) do(a *SAct) bool {
 		if h.unary && (a.Hop.Op == "recv" || a.Hop.Op == "send") {
 			return true
 		}
-		if !h.unary && a.Hop.Op == "return" && r.muHeld() && r.fwdTarget() != a.H {
+		if !h.unary && a.Hop.Op == "return" && r.muHeld() && !(r.fwdTarget() == a.H && r.ep.Pending() == 0) {
+			// the read loop is parked holding h.mu: only the handler it waits for may return, and only when nothing
+			// is queued behind (otherwise the read loop may park again, still holding the lock this handler needs)
 			return false
 		}
 		h.gate <- a.Hop
